@@ -567,6 +567,11 @@ func (q *BufferedChannelQueue[T]) loadFromPool() {
 		}
 
 		q.lock.Lock()
+		// Re-check under the lock: Close() may have closed blockingQueue meanwhile
+		if q.isClosed.Get() {
+			q.lock.Unlock()
+			break
+		}
 
 		var val T
 		var pollErr, offerErr error
@@ -593,6 +598,13 @@ func (q *BufferedChannelQueue[T]) loadFromPool() {
 }
 
 func (q *BufferedChannelQueue[T]) notifyWorkers() {
+	// Close() closes loadWorkerCh under the write lock: check under the lock, or the send may hit a closed channel
+	q.lock.RLock()
+	defer q.lock.RUnlock()
+	if q.isClosed.Get() {
+		return
+	}
+
 	q.loadWorkerCh.Offer(1)
 	q.freeNodeWorkerCh.Offer(1)
 }
